@@ -2,9 +2,10 @@
 
 ID = "C14"
 HARNESS_TEST = "TestC14"
-COQ_MODEL = ["C14/Check.v"]
+GEN = "c14"
+COQ_MODEL = ["C14/Check.v", "Gen/C14Facts.v"]
 COQ_PROOF_DEPS = ["C14/Proofs.v"]
-COQ_OBLIG = ["C14/Property.v"]
+COQ_OBLIG = ["C14/Property.v", "Gen/C14Oblig.v"]
 CASES_HEADER = "Require Import Nib.C14.Model Nib.C14.Spec Nib.C14.Check."
 CASE_TYPE = "case"
 MISMATCH_FN = "mismatch"
@@ -27,8 +28,24 @@ TRUSTED = ["the recording EpochHooks in harness/c14 (two instances around the ap
 ZERO_TIME = -62135596800 * 10 ** 9  # Go's time.Time{} in ns since the Unix epoch
 
 
+# Big numerals are slow to parse in Coq 8.16 (about 1 ms each): every distinct big number of a case is bound once by a
+# `let` in front of the case term and referred to by name.
+_tab = {}
+
+
 def z(n):
-    return "(%d)%%Z" % int(n)
+    n = int(n)
+    if -1000 < n < 1000:
+        return "(%d)%%Z" % n
+    if n not in _tab:
+        _tab[n] = "a%d" % len(_tab)
+    return _tab[n]
+
+
+def _with_lets(term):
+    lets = "".join("let %s := (%d)%%Z in " % (name, n) for n, name in sorted(_tab.items(), key=lambda kv: int(kv[1][1:])))
+    _tab.clear()
+    return "(%s%s)" % (lets, term)
 
 
 def _ranks(rec):
@@ -50,7 +67,8 @@ def _ranks(rec):
 
 
 def _info(e, rk):
-    return ("{| e_id := %d; e_start := %s; e_dur := %s; e_cur := %s; e_cur_start := %s; e_height := %s; e_started := %s |}"
+    # constructor application instead of record syntax: elaborates several times faster
+    return ("(Build_einfo %d %s %s %s %s %s %s)"
             % (rk[e["ident"]], z(e["start"]), z(e["dur"]), z(e["cur"]), z(e["cur_start"]), z(e["height"]),
                "true" if e["started"] else "false"))
 
@@ -64,6 +82,11 @@ def _pairs(rec):
 
 
 def to_coq_case(rec):
+    _tab.clear()
+    return _with_lets(_to_coq_case(rec))
+
+
+def _to_coq_case(rec):
     rk = _ranks(rec)
     items = []
     for op, o in _pairs(rec):
@@ -73,17 +96,16 @@ def to_coq_case(rec):
             ident = op.get("ident", "")
             st = op.get("start")
             cs = op.get("cur_start")
-            a = ("{| a_id := %d; a_empty := %s; a_start := %s; a_dur := %s; a_cur := %s; a_cur_start := %s; a_height := %s; "
-                 "a_started := %s |}" % (rk.get(ident, 0), "true" if ident == "" else "false",
-                                         "None" if st is None else "Some %s" % z(st), z(op.get("dur", 0)), z(op.get("cur", 0)),
-                                         z(ZERO_TIME if cs is None else cs), z(op.get("height", 0)),
-                                         "true" if op.get("started") else "false"))
+            a = ("(Build_add_args %d %s %s %s %s %s %s %s)" % (
+                rk.get(ident, 0), "true" if ident == "" else "false",
+                "None" if st is None else "(Some %s)" % z(st), z(op.get("dur", 0)), z(op.get("cur", 0)),
+                z(ZERO_TIME if cs is None else cs), z(op.get("height", 0)), "true" if op.get("started") else "false"))
             t = "Add %s %s %s" % (z(o["t"]), z(o["h"]), a)
-        ob = "{| b_ok := %s; b_infos := [%s]; b_log := [%s] |}" % (
+        ob = "(Build_obs %s [%s] [%s])" % (
             "true" if o["ok"] else "false", "; ".join(_info(e, rk) for e in o["infos"] or []),
             "; ".join(_hook(c, rk) for c in o["log"] or []))
         items.append("(%s, %s)" % (t, ob))
-    return "{| c_k := %d; c_init := [%s]; c_tr := [%s] |}" % (
+    return "(Build_case %d [%s] [%s])" % (
         rec["obs"]["k"], "; ".join(_info(e, rk) for e in rec["obs"]["init"] or []), "; ".join(items))
 
 
